@@ -58,7 +58,7 @@ Definition lop_str (o : lop) : string :=
 Inductive fname :=
  | FAny | FMax | FMin | FCount | FToFloat64 | FIsNotNull | FToFloat64OrNull | FToFloat64OrZero
  | FAvgIf | FMaxIf | FMinIf | FSumIf | FCityHash64 | FUnhex | FGroupArray | FGroupUniqArray
- | FArgMin | FLower | FHex | FArrayMap
+ | FArgMin | FLower | FHex | FArrayMap | FUniqExact
  | FOther (s : string).
 Definition fname_str (f : fname) : string :=
   match f with
@@ -66,7 +66,7 @@ Definition fname_str (f : fname) : string :=
   | FIsNotNull => "isNotNull" | FToFloat64OrNull => "toFloat64OrNull" | FToFloat64OrZero => "toFloat64OrZero"
   | FAvgIf => "avgIf" | FMaxIf => "maxIf" | FMinIf => "minIf" | FSumIf => "sumIf"
   | FCityHash64 => "cityHash64" | FUnhex => "unhex" | FGroupArray => "groupArray" | FGroupUniqArray => "groupUniqArray"
-  | FArgMin => "argMin" | FLower => "lower" | FHex => "hex" | FArrayMap => "arrayMap"
+  | FArgMin => "argMin" | FLower => "lower" | FHex => "hex" | FArrayMap => "arrayMap" | FUniqExact => "uniqExact"
   | FOther s => s
   end.
 Inductive binop := BMod | BAdd | BSub | BDiv.
